@@ -122,13 +122,13 @@ PROPS = {
         not_reached=['TorrentMapShards (locks, Arc, hashbrown): shard-level frame'],
     ),
     'C02': dict(
-        verus=['udp_swarm'], kani=[], level='proof',
+        verus=['udp_swarm', 'http_swarm'], kani=[], level='proof',
         technique='Verus contracts on the real extract_response_peers / PeerMap::announce (all sizes, all RNG outcomes, all numwant values)',
         claim='UDP: the peer list of every announce reply is duplicate-free, a subset of the stored peers minus the announcer, at most min(numwant, max) long (non-positive numwant = max), complete when the swarm is small and at least limit-1 otherwise; index arithmetic of the two-half selection is proved safe.',
         note='http and ws peer selection are added by later units; inline-map selection (SmallPeerMap::extract_response_peers) is a hand-off contract.',
     ),
     'C03': dict(
-        verus=['udp_handler', 'udp_swarm'], kani=[K_COMMON_ADDR], level='proof',
+        verus=['udp_handler', 'udp_swarm', 'http_swarm'], kani=[K_COMMON_ADDR], level='proof',
         technique='Verus contracts: key construction from the datagram source in TorrentMaps::announce / PeerMap::announce (request.ip_address cannot influence the post-state)',
         claim='UDP: the address family and the IP octets handed to the per-torrent map are those of the datagram source, and the stored key is (that ip, request.port).',
         note='recv_from glue, CanonicalSocketAddr and the http/ws paths are covered by other units or not reached.',
@@ -138,6 +138,13 @@ PROPS = {
         technique='Verus contracts on the real handle_request of both socket back ends (mio and io_uring) with permission preconditions on the swarm entry points',
         claim='For every request and source: connect is always answered with the echoed transaction id; announce/scrape are answered iff the connection id is valid for the source; the reply kind, address family and transaction id are those the request calls for; the swarm is never reached without a valid id.',
         note='validator and shard maps are contract stubs (C05 / C01 decide them); datagram I/O loops, source-port-0 filtering and one-datagram-per-datagram are not reached.',
+    ),
+    'C07': dict(
+        verus=['http_swarm'], kani=[], level='proof',
+        technique='Verus contracts (one-step refinement of a reference tracker) on the real http TorrentData / LargePeerMap / TorrentMap functions, incl. a prophecy-style contract for indexmap entry()',
+        claim='Every announce handled by an HTTP swarm worker refines the reference tracker for all states and inputs: counts exclude the announcer, stopped removes, latest wins, left = 0 means seeder, a never-seen torrent behaves like an empty one, and every other torrent is untouched (frame).',
+        note='Assumes the dependency contract for indexmap (incl. entry/or_default) and the hand-off contracts of the inline map; scrape (iterator loop) and clean (retain closure) are not in the Verus unit.',
+        not_reached=['TorrentMap::handle_scrape_request (iterator adapters, BTreeMap)', 'TorrentMap::clean (retain closure)'],
     ),
     'C11': dict(
         verus=['udp_handler'], kani=[], level='proof',
